@@ -1,6 +1,7 @@
 package rules
 
 import (
+	"regexp"
 	"fmt"
 	"go/types"
 	"sort"
@@ -78,6 +79,8 @@ func lockedAt(fn *ssa.Function, at ssa.Instruction, muSuffix string) bool {
 	return false
 }
 
+var c14ParamRe = regexp.MustCompile(`\bp[0-9]+\b`)
+
 func c14(c *Ctx) {
 	p := c.P
 	c.Explanation = "Static check of two structural clauses of the raw TCP listener (SEQUENCE/ACK ARITHMETIC MODULO 2^32 AND CHECKSUM VALUES ARE RUN-TIME NUMERICS AND ARE NOT DECIDED): (1) every frame is addressed back to the sender and acknowledges the right counters – in send() the TCP header takes " +
@@ -95,6 +98,32 @@ func c14(c *Ctx) {
 	c14ChecksumFold(c)
 	// ---- (1) roles in send()
 	th := fieldStoresIn(send, "Header")
+	// send() may delegate building the headers to helpers (buildPacket(state, payload, flags)): their literals count, with the
+	// helper's parameters renamed to the arguments send passes
+	for _, call := range Calls(send) {
+		hf := call.Common().StaticCallee()
+		if hf == nil || !InRepo(hf) || hf.Blocks == nil || PkgOf(hf) != PkgOf(send) || hf == send {
+			continue
+		}
+		ren := map[string]string{}
+		for ai, a := range call.Common().Args {
+			if pr, ok := a.(*ssa.Parameter); ok && pr.Parent() == send && ai < len(hf.Params) {
+				ren[fmt.Sprintf("p%d", ai)] = fmt.Sprintf("p%d", paramIdx(pr))
+			}
+		}
+		for k, v := range fieldStoresIn(hf, "Header") {
+			if _, dup := th[k]; dup {
+				continue
+			}
+			v = c14ParamRe.ReplaceAllStringFunc(v, func(m string) string {
+				if r, ok := ren[m]; ok {
+					return r
+				}
+				return "q" + m[1:] // a helper parameter that is not one of send's parameters
+			})
+			th[k] = v
+		}
+	}
 	// two Header types (tcp, ipv4) share the name: split by field presence
 	want := map[string]string{"Source": "p1.DestPort", "Destination": "p1.SrcPort", "SeqNum": "p1.SendNext", "AckNum": "p1.RecvNext", "Src": "p1.DestIP", "Dst": "p1.SrcIP", "Ctrl": "p3", "Payload": "p2", "Protocol": "6"}
 	var names []string
